@@ -343,7 +343,7 @@ fn c10(args: &Args) -> ! {
     let mut rep = Report::new(
         "packmc",
         "C10",
-        "each logical container (shapes small / multi / multi2 with two extra content packs) x compression is created as OneFile, TwoFiles, NoConcat; with its extra packs written next to / below / beside / above the entry-point file, read in place and after moving the whole tree; with multi-byte file names and with pack files reached through symbolic links; its separate files are concatenated in every order (all permutations), a concat output is concatenated again, a history of three concats with one pack handed over twice ends in an empty directory, manifest+directory only (content through the recorded location), a decoy pack sits at the recorded location while the real one is inside, TwoFiles' files concatenated in both orders, and the one-file container is embedded after prefixes (lengths x 5 kinds); every packaging's full dump must equal the reference model's; non-trivial = every case; distinct by (logical, compression, packaging, order/prefix)",
+        "each logical container (shapes small / multi / multi2 with two extra content packs / big with 400 entries) x compression is created as OneFile, TwoFiles, NoConcat; with its extra packs written next to / below / beside / above the entry-point file, read in place and after moving the whole tree; with multi-byte file names and with pack files reached through symbolic links; its separate files are concatenated in every order (all permutations), a concat output is concatenated again, a history of three concats with one pack handed over twice ends in an empty directory, manifest+directory only (content through the recorded location), a decoy pack sits at the recorded location while the real one is inside, TwoFiles' files concatenated in both orders, and the one-file container is embedded after prefixes (lengths x 5 kinds); every packaging's full dump must equal the reference model's; non-trivial = every case; distinct by (logical, compression, packaging, order/prefix)",
     );
     let t = args.thorough();
     let mut configs: Vec<(&str, Comp)> = vec![];
@@ -359,9 +359,10 @@ fn c10(args: &Args) -> ! {
     configs.push(("small", Comp::Lzma(1)));
     configs.push(("multi2", Comp::Lz4(3)));
     configs.push(("multi2", Comp::Lzma(1)));
+    // 400 entries: a directory pack above 4 KiB (read through a mapping when it is alone in its file)
+    configs.push(("big", Comp::None));
     if t {
         configs.push(("big", Comp::Zstd(5)));
-        configs.push(("big", Comp::None));
     }
     if let Some(p) = &args.replay {
         let j: J = serde_json::from_str(&std::fs::read_to_string(p).expect("replay file")).unwrap();
